@@ -285,8 +285,8 @@ void bufr_print_rtmd_qualifiers( char *outstr, BufrRTMD *rtmd )
       for (i = 0; i < rtmd->nb_qualifiers ; i++ )
          {
          if (i >= 1) strcat( outstr, "," );
-			bufr_print_value( buf1, rtmd->qualifiers[i]->value );
-         sprintf( buf, "%d=%s", rtmd->qualifiers[i]->descriptor, buf1 );
+			bufr_snprint_value( buf1, sizeof(buf1), rtmd->qualifiers[i]->value );
+         snprintf( buf, sizeof(buf), "%d=%s", rtmd->qualifiers[i]->descriptor, buf1 );
          strcat( outstr, buf );
          }
       strcat( outstr, "}" );
